@@ -83,6 +83,8 @@ def run(ctx, rep):
     F = ctx.facts()
     bt = tables.builtin_tables(ctx)
     rep.rule('R14.1', 'name -> Builtin -> function is a bijection onto the seven documented builtins')
+    rep.rule('R14.12', 'the text of an array shows every element, every time: no path writes an array without reading its elements, no turn of the element loop skips the element (a shared array is written in full wherever it occurs)')
+    shared.check_array_text_complete(ctx, rep, 'R14.12')
     rep.rule('R14.2', 'arity guard: args.len() != 1 is an ArgumentError before args[0] is touched')
     rep.rule('R14.3', 'totality: 7 builtins x 7 types all return (49 cells), no reachable panic')
     rep.rule('R14.4', 'identity: converting a value to its own type returns the argument itself')
